@@ -9,6 +9,9 @@ from . import tlc
 from .common import chunk_list
 
 
+GEN_PLAN_DEFAULTS = dict(NMax=0, SMax=0, Pad=0, Preset="q")
+
+
 def _cfg(consts: dict, extra: str = "") -> str:
     lines = ["INIT Init", "NEXT Next", "CHECK_DEADLOCK FALSE"]
     if consts:
@@ -24,6 +27,9 @@ def _cfg(consts: dict, extra: str = "") -> str:
 def generate(module: str, consts: dict, rundir: str, tag: str, timeout=600, heap="4g", decode=None):
     """Run a Gen_* module; returns (cases, TLCResult)."""
     out = os.path.join(rundir, f"gen-{tag}.ndjson")
+    if module == "Gen_Plan":
+        # every CONSTANT of Gen_Plan must be assigned, also the ones a family does not use
+        consts = dict(GEN_PLAN_DEFAULTS, **consts)
     res = tlc.run_tlc(module, _cfg(consts), env={"OUT": out}, rundir=rundir, timeout=timeout, heap=heap)
     tlc.require_clean(res, f"{module} {consts}")
     if not res.tuples("GENERATED"):
